@@ -72,8 +72,10 @@ var (
 	goodInts  = []string{"0", "1", "80", "8888", "65535", "123456"}
 	goodUints = []string{"0", "1", "99", "100", "101", "1000000", "18446744073709551615"}
 	goodDurs  = []string{"1m", "250ms", "2h45m", "0s", "1.5s", "1m0s", "90s", "1us"}
-	goodStrs  = []string{"db", "/var/lib/fsdb", "./rel/path", "a_b-c.d", "x"}
-	goodLists = [][]string{{"r1"}, {"/mnt/a", "/mnt/b"}, {"./s1", "./s2", "./s3"}, {"only"}}
+	// (paths are taken verbatim: characters that mean something to shells, format strings, YAML or glob
+	// patterns are ordinary characters of a path)
+	goodStrs  = []string{"db", "/var/lib/fsdb", "./rel/path", "a_b-c.d", "x", "/srv/$meta/db", "/mnt/${pool}/x y", "$HOME", "a#b: c", "100%d", "~/db*[1]"}
+	goodLists = [][]string{{"r1"}, {"/mnt/a", "/mnt/b"}, {"./s1", "./s2", "./s3"}, {"only"}, {"/mnt/vol$1/storage", "/mnt/${pool}/storage"}, {"a b", "c#d", "e: f"}}
 	badNum    = []string{"abc", "12abc", "--3", "0x", "1e", "ten"}
 	badUint   = []string{"abc", "-5", "12abc", "-1"}
 	// environment values are plain decimal numbers: leading zeros are still decimal, a hexadecimal
